@@ -6,6 +6,7 @@ import (
 	"sort"
 
 	"github.com/syndtr/goleveldb/leveldb"
+	"github.com/syndtr/goleveldb/leveldb/opt"
 	"github.com/syndtr/goleveldb/leveldb/storage"
 	"verif/harness/decode"
 	"verif/simrt"
@@ -291,6 +292,12 @@ func genRecover(seed uint64, g *gen, thorough bool) *Case {
 		dm.Blocks = r.rng(1, 4)
 	}
 	c.Damage = dm
+	if r.p(0.4) {
+		// explicit strictness levels that keep block checksums on (damage must
+		// stay detectable) and leave StrictRecovery off (damage is dropped,
+		// not reported): the reader used by Recover must tolerate bad blocks
+		c.Knobs.Strict = uint([]opt.Strict{opt.StrictBlockChecksum, opt.StrictBlockChecksum | opt.StrictJournalChecksum, opt.StrictBlockChecksum | opt.StrictCompaction | opt.StrictManifest}[r.intn(3)])
+	}
 	if dm.Blocks == 0 {
 		p2 := profile{ops: [2]int{3, 40}, maxMoves: 20, syncP: 0.1}
 		p2.wWrite, p2.wGet, p2.wIter, p2.wCompact, p2.wReopen = 50, 30, 10, 5, 5
